@@ -11,7 +11,7 @@ LEVEL = "proof"
 LEVEL_TEXT = ("Kernel-checked theorems about the BOOKKEEPING of classes.slotted, for every class description and every "
               "history of decorations (no bound): C19.slots_formula / mem_slotsOf / slots_nodup (the __slots__ tuple is "
               "the non-inherited field names in field order, then __dict__ / __weakref__ iff requested and not inherited, "
-              "no duplicates), own_slots_ignored, no_field_default_in_dict / special_not_in_dict / other_attrs_kept / "
+              "no duplicates), own_slots_ignored, no_field_default_in_dict / special_not_in_dict / slotnames_not_in_dict / other_attrs_kept / "
               "setstate_fix_iff (the rewritten class dict), creation_rule_satisfied (the computed slots never violate the "
               "modelled rule of type.__new__), guard_empty_at_rest / guard_never_grows / history_independent / "
               "never_spurious_raise / plain_dataclass_created (the module-global re-entrancy guard is empty after every "
@@ -266,6 +266,8 @@ def gen_dc(rng, steps, name=None, base=None, frozen=None, flags=None, state=None
     d, w = flags if flags is not None else (rng.random() < 0.4, rng.random() < 0.6)
     spec["dict"], spec["weakref"] = d, w
     spec["args"] = gen_argsets(rng, all_fields(spec, steps)) if base != "tuple" else [[]]
+    # an instance of the ORIGINAL class is copied before the decoration: copyreg then caches `__slotnames__` in its dict
+    spec["precopy"] = rng.random() < 0.3
     return spec
 
 
@@ -683,6 +685,14 @@ def real_history(job):
             news.append(None)
             outs.append({"skip": why})
             continue
+        if spec.get("precopy") and spec["kind"] == "dc":
+            import copy
+            fs = all_fields(spec, steps)
+            for args in spec["args"][:1]:
+                try:
+                    copy.copy(C(*[_pyval(v, f["ty"]) for v, f in zip(args, fs)]))
+                except BaseException:  # noqa: BLE001  (an original that cannot be copied is excluded by the oracle anyway)
+                    pass
         desc = describe(C)
         sab = spec["kind"] == "dc" and spec["base"] and spec["base"]["kind"] == "sab"
         if sab:
